@@ -4,7 +4,9 @@ TRUSTED = [
     "vlib/extract.py + vlib/gen/conn.py (clang-14 JSON AST -> Generated/Conn.lean: the state enum, 30 branch guards of "
     "TcpConnection.cc and Channel.cc, and for every hand-off to the loop whether it is runInLoop or queueInLoop and "
     "whether the functor holds the raw this, a shared or a weak reference; for the three notification functors whether "
-    "the user's callback is bound by value or by reference: wcBindSend, wcBindDrain, hwmBind)",
+    "the user's callback is bound by value or by reference: wcBindSend, wcBindDrain, hwmBind; whether the trampolines "
+    "that run the weak functors - notifyWriteComplete/notifyHighWaterMark, WeakCallback::operator() - lock, test and "
+    "then call: notifyLocks, weakCallbackLocks) + vlib/gen/connskel.py (statement skeletons of 20 functions)",
     "hand-written Model/Conn.lean (statement order inside each member function, the loop's dispatch-then-functors "
     "iteration, the poller slot of the channel, the owner's close path), tied to the real TcpConnection by the "
     "differential run: harness/conn_drv.cc drives a real TcpConnection on a socketpair inside a real EventLoop, one "
